@@ -9,6 +9,11 @@
 ))]
 use crate::parse::bits::swap_nibble_in_u8;
 
+#[cfg(fast_tlsh_verif)]
+#[allow(missing_docs)]
+#[allow(clippy::missing_docs_in_private_items)]
+pub(crate) mod verif_hooks;
+
 /// The uppercase hexadecimal digit array.
 const HEX_UPPER_NIBBLE_TABLE: [u8; 16] = [
     b'0', b'1', b'2', b'3', b'4', b'5', b'6', b'7', b'8', b'9', b'A', b'B', b'C', b'D', b'E', b'F',
